@@ -113,15 +113,18 @@ class ReuseHistory(Engine):
     name = "reuse_history"
     properties = ("C11",)
     real_components = ["antismash.main.run_antismash / read_data / run_detection / run_module / write_outputs",
-                       "hmm_detection, sideloader, nrps_pks_domains, tta: run_on_record, regenerate_previous_results, "
+                       "hmm_detection, sideloader, nrps_pks_domains, cluster_hmmer / full_hmmer / pfam2go, tigrfam, genefunctions, "
+                       "t2pks, terpene, rrefinder, tfbs_finder, tta: run_on_record, regenerate_previous_results, "
                        "to_json / from_json, add_to_record", "serialiser.AntismashResults.from_file / write_to_file, "
                        "record_from_json", "GenBank writers", "one forked process per invocation; real files"]
-    stub_components = ["hmmsearch / hmmscan -> in-process fakes (needed only by the invocation that computes)",
+    stub_components = ["hmmsearch / hmmscan / diamond -> in-process fakes (hmmsearch answers only in the invocation that computes; "
+                       "hmmscan keeps answering in reuse invocations, where some analyses legitimately search again)",
                        "wall clock -> simulated clock", "database directory -> scratch",
                        "memory layout -> salted identity hashes, a different salt for every invocation"]
     rule = ("one run = one history of 2-5 invocations on one output directory: a fresh analysis of a generated "
             "multi-record input, then --reuse-results invocations with unchanged options (most), changed result-defining "
-            "options (strictness, rule/category limits, fungal multipliers, TTA threshold, TTA enabled), a bumped schema "
+            "options (strictness, rule/category limits, fungal multipliers, TTA threshold / enabled, TFBS p-value / range, RRE cutoff / "
+            "minimum length, Pfam release), a bumped schema "
             "version, module results offered to a different record, or a failed invocation in between. Outputs of every "
             "invocation are compared with the previous invocation and with fresh reference analyses under the changed "
             "options. non-trivial = the history has a reuse invocation over >= 1 region; distinct = digest of (input, "
